@@ -9,7 +9,7 @@ from . import build, checks, run
 pool = build.pool
 STACK_IDS = [s.id for s in pool.STACKS]
 PROP = 'C16'
-BUILDS = [('thr-rel', 12000, 600000), ('thr-dbg', 6000, 300000)]
+BUILDS = [('thr-rel', 12000, 600000), ('thr-dbg', 6000, 300000), ('thr-nobmi2', 4000, 150000)]
 WM = ['readers', 'writers', 'mixed']
 
 
@@ -82,7 +82,9 @@ def check(tier, seed):
                 f.write('world compile\nlabel %s\nexpect %s\n' % (label, key))
             first = [l for l in err.splitlines() if 'error' in l][:1]
             rep.add_violation(key, first[0][:300] if first else 'does not compile', path)
-    base = ['--seed', str(seed), '--tier', tier, '--disable', disabled]
+    # run indices from here on are executed one per process (see below); the generator knows
+    fresh_from = max((nt if thorough else nq) for _, nq, nt in BUILDS)
+    base = ['--seed', str(seed), '--tier', tier, '--disable', disabled, '--fresh-from', str(fresh_from)]
     for b, nq, nt in BUILDS:
         n = nt if thorough else nq
         tb = time.time()
@@ -108,10 +110,14 @@ def check(tier, seed):
     fresh_results = []
     import concurrent.futures as cf
     b0 = BUILDS[0][0]
-    first = (BUILDS[0][2] if thorough else BUILDS[0][1])
+    first = fresh_from
 
     def one(i):
-        rs, st = run.run_batch(exes[b0], base, 1, 1, start=first + i)
+        # three quarters in the first build, a quarter in the build without BMI2
+        exe = exes[b0] if i % 4 else exes[BUILDS[-1][0]]
+        rs, st = run.run_batch(exe, base, 1, 1, start=first + i)
+        for r in rs:
+            r['fresh_build'] = b0 if i % 4 else BUILDS[-1][0]
         return rs, st
     tb = time.time()
     with cf.ThreadPoolExecutor(16) as ex:
@@ -127,7 +133,7 @@ def check(tier, seed):
                 scheds.add(r['case'])
         else:
             key = death_key(r) if r.get('death') else r['key']
-            found.setdefault(key, (b0, r))
+            found.setdefault(key, (r.get('fresh_build', b0), r))
     for key, (b, r) in checks.cap_keys(rep, found):
         exe = exes[b]
         res = run.run_once(exe, base + ['--emit-plan', str(r['run'])])
